@@ -89,6 +89,17 @@ def _last_line(s) -> str:
     return s[-1][:200] if s else ''
 
 
+def _logged_size(desc, buf) -> int:
+    """Payload size as it enters the event trace (and its digest).  A LOG
+    message carries a pickled LogRecord with the real process id, thread
+    id and wall-clock times of the interpreter that happens to host the
+    run: its size varies by a few bytes between processes, so it is left
+    out of the trace."""
+    if isinstance(desc, tuple) and desc and desc[0] == 'LOG':
+        return 0
+    return len(buf)
+
+
 class SimConnection:
     """One end of a duplex message connection."""
 
@@ -147,7 +158,7 @@ class SimConnection:
                     p.inflight.append(RST)
                 return
             self.inbox.append(item)
-            self.sim.log('DELIVER', self.label, desc, len(buf))
+            self.sim.log('DELIVER', self.label, desc, _logged_size(desc, buf))
 
     def readable(self) -> bool:
         return bool(self.inbox) or self.fin_arrived or self.rst_arrived
@@ -175,10 +186,10 @@ class SimConnection:
         peer.inflight.append((desc, buf))
         if _DEBUG_PAYLOAD:
             import hashlib
-            sim.log('SEND', peer.label, desc, len(buf),
+            sim.log('SEND', peer.label, desc, _logged_size(desc, buf),
                     hashlib.sha256(buf).hexdigest()[:10])
         else:
-            sim.log('SEND', peer.label, desc, len(buf))
+            sim.log('SEND', peer.label, desc, _logged_size(desc, buf))
 
     def recv(self):
         sim = self.sim
